@@ -1,7 +1,7 @@
 (* C02: a concrete mid-migration cluster view satisfying the hypotheses of the theorems, concrete chases, and witnesses showing
    what happens for phase pairs OUTSIDE the consistent list (reachable only after the max_blocking_time time-out of scan_task.rs). *)
 From UM Require Import Base.BytesDef Model.Ranges Model.Broker Model.Route
-     Proofs.BrokerPartRanges Proofs.BrokerPartDefs Proofs.RouteProofs.
+     Proofs.BrokerPartRanges Proofs.BrokerPartDefs Proofs.RouteProofs Proofs.RouteProofsDyn.
 From Coq Require Import ZifyBool ZifyNat ZifyN.
 
 (* 8 proxies, a cluster on proxies 2 and 4, two more proxies (8, 6) added, migration started:
@@ -98,3 +98,22 @@ Lemma ex_split_outside_consistent_pairs :
   phases_ok ph ns_ex = false /\
   route_step ph (install_ns ns_ex 2) 5000 = [Exec 4] /\ route_step ph (install_ns ns_ex 8) 5000 = [Exec 16].
 Proof. repeat split; vm_compute; reflexivity. Qed.
+
+(* ---------- the handshake advancing during a chase: the bound 3 is reached ---------- *)
+Definition ph_pc := ph_all (mkPhase SPreCheck false DPreCheck).
+Definition ph_scan := ph_all (mkPhase SScanning false DPreSwitch).
+
+Lemma ex_dynamic_three :
+  dpath (install_ns ns_ex) 5000 [ph_pc; ph_pc; ph_scan; ph_scan] 6 [(6, Moved 8); (8, Moved 2); (2, Moved 8); (8, Exec 16)]
+  /\ chain [ph_pc; ph_pc; ph_scan; ph_scan]
+  /\ Forall (fun ph => phases_ok ph ns_ex = true) [ph_pc; ph_pc; ph_scan; ph_scan]
+  /\ redirections [(6, Moved 8); (8, Moved 2); (2, Moved 8); (8, Exec 16)] = 3%nat
+  /\ designated ph_scan ns_ex 5000 = Some 16.
+Proof.
+  split; [|split; [|split; [|split]]].
+  - do 3 (apply dpath_cons; [vm_compute; auto|]). apply dpath_one. vm_compute. auto.
+  - cbn [chain]. repeat split; intros rl m i j Hi Hj; vm_compute in Hi, Hj; inversion Hi; inversion Hj; subst; lia.
+  - repeat constructor; vm_compute; reflexivity.
+  - vm_compute. reflexivity.
+  - vm_compute. reflexivity.
+Qed.
